@@ -35,6 +35,9 @@ struct Model {
     frames: Vec<(usize, usize)>,
     instr_base: usize,
     jump_base: usize,
+    /// (address, parts) of the symbol list made by the latest AddSym, and the address of the first symbol added
+    last_symlist: Option<(usize, Vec<u64>)>,
+    sym_addrs: Vec<(usize, u64)>,
 }
 
 pub trait Hooks: Store + Mk {
@@ -155,7 +158,17 @@ impl<'a, D: Hooks> Runner<'a, D> {
                     Op::AddNum => {
                         let v = if k % 2 == 0 { V::Int(1000 + k as i32) } else { V::Float(0.25 + k as f64) };
                         let a = construct(d, &v).map_err(es)?;
-                        m.values.push((a, v));
+                        m.values.push((a, v.clone()));
+                        // an integer also as the symbol its text spells (what a cast to a symbol does), and then that
+                        // text as a constant of its own: a temporary rendering must leave nothing behind
+                        if let V::Int(n) = v {
+                            let text = format!("{}", n);
+                            let sa = d.add_symbol_from(a).map_err(es)?;
+                            m.values.push((sa, V::Sym(garnish_lang_simple_data::symbol_value(&text))));
+                            let tv = V::CharList(text);
+                            let ta = construct(d, &tv).map_err(es)?;
+                            m.values.push((ta, tv));
+                        }
                     }
                     Op::AddText => {
                         let v = if k % 2 == 0 { V::CharList(format!("s{}é", k)) } else { V::ByteList(vec![k as u8, 255, 0]) };
@@ -165,10 +178,24 @@ impl<'a, D: Hooks> Runner<'a, D> {
                     Op::AddSym => {
                         // every other name holds multi-byte characters (character count and byte length differ)
                         let name = if k % 2 == 0 { format!("nm{}", k) } else { format!("größe{}é", k) };
+                        // the list made by the previous AddSym, if nothing was added since, is the last thing in the data
+                        // table: extending it with a symbol that existed before it must make a new list, not grow the old one
+                        if let (Some((la, parts)), Some((fa, fs))) = (m.last_symlist.clone(), m.sym_addrs.first().cloned()) {
+                            let na = d.merge_to_symbol_list(la, fa).map_err(es)?;
+                            let mut np = parts.clone();
+                            np.push(fs);
+                            m.values.push((na, V::SymList(np.iter().map(|x| crate::value::SymPart::Sym(*x)).collect())));
+                        }
                         let a = d.parse_add_symbol(&name).map_err(es)?;
                         let s = garnish_lang_simple_data::symbol_value(&name);
                         m.values.push((a, V::Sym(s)));
                         m.syms.push((s, name));
+                        if let Some((pa, ps)) = m.sym_addrs.last().cloned() {
+                            let la = d.merge_to_symbol_list(pa, a).map_err(es)?;
+                            m.values.push((la, V::SymList(vec![crate::value::SymPart::Sym(ps), crate::value::SymPart::Sym(s)])));
+                            m.last_symlist = Some((la, vec![ps, s]));
+                        }
+                        m.sym_addrs.push((a, s));
                     }
                     Op::AddCompound => {
                         let n = m.values.len();
@@ -681,7 +708,7 @@ pub fn run(ctx: &Ctx) -> (Acc, String, bool) {
         }
     });
     let rule = format!(
-        "exhaustive: every history of length 1..{} over 9 operation kinds (add number / text|bytes / named symbol / pair|list of earlier values; push instruction; push+patch jump entry; push/pop register; push/pop value; push/pop frame) = {} histories, each on SimpleGarnishData and on BasicGarnishData with initial block sizes 0,1,2 x growth +1,+2,x2(from non-zero) plus default ({} configurations), full read-back sweep of every table + structural invariant (verif hooks) after EVERY operation; Simple interning: every sequence of length {} over {} constants incl. hash-stream alias pairs (Float 1.5 / Integer -13291983 ...) = {}; near-collision interning groups (text / byte lists of 20 lengths from 1 to 4096 that agree in length and all but one position, close floats, integers, symbols) added in random orders with repetitions; interning volume: stores holding up to {} distinct constants of five kinds, each added a second time in random order; random: {} histories of {} operations (rolling + periodic full sweeps). distinct_nontrivial counts exhaustive histories in which the data table grew, interning sequences, and distinct random histories.",
+        "exhaustive: every history of length 1..{} over 9 operation kinds (add number [+ the symbol its text spells + that text] / text|bytes / named symbol [+ symbol lists merged from it] / pair|list of earlier values; push instruction; push+patch jump entry; push/pop register; push/pop value; push/pop frame) = {} histories, each on SimpleGarnishData and on BasicGarnishData with initial block sizes 0,1,2 x growth +1,+2,x2(from non-zero) plus default ({} configurations), full read-back sweep of every table + structural invariant (verif hooks) after EVERY operation; Simple interning: every sequence of length {} over {} constants incl. hash-stream alias pairs (Float 1.5 / Integer -13291983 ...) = {}; near-collision interning groups (text / byte lists of 20 lengths from 1 to 4096 that agree in length and all but one position, close floats, integers, symbols) added in random orders with repetitions; interning volume: stores holding up to {} distinct constants of five kinds, each added a second time in random order; random: {} histories of {} operations (rolling + periodic full sweeps). distinct_nontrivial counts exhaustive histories in which the data table grew, interning sequences, and distinct random histories.",
         len,
         total_h,
         cfgs.len(),
